@@ -127,3 +127,167 @@ theorem closure_eq_conn (top : List (TEdge α)) (s : List Nat) (hs : s.Nodup) (s
     | tail _ hstep ih => exact hclosed _ ih _ hstep.2.1 hstep.2.2
 
 end Momtrop
+
+namespace Momtrop
+variable {α : Type}
+
+theorem adj_symm (top : List (TEdge α)) (e f : Nat) : adj top e f = adj top f e := by
+  unfold adj containsVertex
+  generalize (endsOf top e).1 = a
+  generalize (endsOf top e).2 = b
+  generalize (endsOf top f).1 = c
+  generalize (endsOf top f).2 = d
+  rw [Bool.eq_iff_iff]
+  simp only [Bool.or_eq_true, beq_iff_eq]
+  constructor <;> (intro h; rcases h with (h | h) | (h | h) <;> simp [h])
+
+theorem AdjIn.symm {top : List (TEdge α)} {s : List Nat} {e f : Nat} (h : AdjIn top s e f) : AdjIn top s f e :=
+  ⟨h.2.1, h.1, by rw [adj_symm]; exact h.2.2⟩
+
+theorem EdgeConn.symm {top : List (TEdge α)} {s : List Nat} {e f : Nat} (h : EdgeConn top s e f) :
+    EdgeConn top s f e := by
+  induction h with
+  | refl => exact Relation.ReflTransGen.refl
+  | tail _ hstep ih => exact Relation.ReflTransGen.head hstep.symm ih
+
+theorem EdgeConn.trans {top : List (TEdge α)} {s : List Nat} {e f g : Nat} (h1 : EdgeConn top s e f)
+    (h2 : EdgeConn top s f g) : EdgeConn top s e g := Relation.ReflTransGen.trans h1 h2
+
+/-- a set of edges of `s` that is closed under connectivity -/
+def ConnClosed (top : List (TEdge α)) (s vis : List Nat) : Prop :=
+  ∀ e ∈ vis, e ∈ s ∧ ∀ f, EdgeConn top s e f → f ∈ vis
+
+theorem connClosed_nil (top : List (TEdge α)) (s : List Nat) : ConnClosed top s [] := by
+  intro e he; simp at he
+
+/-- What the outer loop guarantees for every component it returns and about coverage. -/
+theorem compsLoop_spec (top : List (TEdge α)) (s : List Nat) (hs : s.Nodup) :
+    ∀ (fuel : Nat) (vis : List Nat), ConnClosed top s vis →
+      (∀ c ∈ compsLoop top s fuel vis, ∃ seed, seed ∈ s ∧ seed ∉ vis ∧ ∀ f, f ∈ c ↔ EdgeConn top s seed f) ∧
+      List.Pairwise (fun c1 c2 : List Nat => ∀ e, e ∈ c1 → e ∉ c2) (compsLoop top s fuel vis) ∧
+      ((s.filter fun e => !vis.contains e).length ≤ fuel →
+        ∀ e ∈ s, e ∉ vis → ∃ c ∈ compsLoop top s fuel vis, e ∈ c) := by
+  intro fuel
+  induction fuel with
+  | zero =>
+    intro vis _
+    refine ⟨by intro c hc; simp [compsLoop] at hc, by simp [compsLoop], ?_⟩
+    intro hlen e he hev
+    have : e ∈ s.filter fun e => !vis.contains e := by
+      rw [List.mem_filter]; exact ⟨he, by simpa using hev⟩
+    have := List.length_pos_of_mem this
+    omega
+  | succ fuel ih =>
+    intro vis hvis
+    cases hf : s.find? (fun e => !vis.contains e) with
+    | none =>
+      have hall : ∀ e ∈ s, e ∈ vis := by
+        intro e he
+        have := List.find?_eq_none.mp hf e he
+        simpa using this
+      have hunf : compsLoop top s (fuel + 1) vis = [] := by simp only [compsLoop, hf]
+      rw [hunf]
+      refine ⟨by intro c hc; simp at hc, List.Pairwise.nil, ?_⟩
+      intro _ e he hev
+      exact absurd (hall e he) hev
+    | some seed =>
+      have hseed_s : seed ∈ s := List.mem_of_find?_eq_some hf
+      have hseed_v : seed ∉ vis := by
+        have := List.find?_some hf
+        simpa using this
+      set c := closure top s (s.length + 1) [seed] with hc
+      have hclass : ∀ f, f ∈ c ↔ EdgeConn top s seed f := fun f => closure_eq_conn top s hs seed hseed_s f
+      -- the new visited set is closed
+      have hvis' : ConnClosed top s (vis ++ c) := by
+        intro e he
+        rcases List.mem_append.mp he with h | h
+        · exact ⟨(hvis e h).1, fun f hf' => List.mem_append.mpr (Or.inl ((hvis e h).2 f hf'))⟩
+        · have hce := (hclass e).mp h
+          refine ⟨(closure_inv top s seed _ _ ⟨fun x hx => by simp at hx; subst hx; exact hseed_s,
+              fun x hx => by simp at hx; subst hx; exact Relation.ReflTransGen.refl⟩).sub e h, ?_⟩
+          intro f hf'
+          exact List.mem_append.mpr (Or.inr ((hclass f).mpr (hce.trans hf')))
+      -- the class of the seed does not meet the visited set
+      have hdisj : ∀ f, f ∈ c → f ∉ vis := by
+        intro f hfc hfv
+        exact hseed_v ((hvis f hfv).2 seed ((hclass f).mp hfc).symm)
+      obtain ⟨ih1, ih2, ih3⟩ := ih (vis ++ c) hvis'
+      have hunf : compsLoop top s (fuel + 1) vis = c :: compsLoop top s fuel (vis ++ c) := by
+        simp only [compsLoop, hf]; rfl
+      rw [hunf]
+      refine ⟨?_, ?_, ?_⟩
+      · intro c' hc'
+        rcases List.mem_cons.mp hc' with rfl | h
+        · exact ⟨seed, hseed_s, hseed_v, hclass⟩
+        · obtain ⟨sd, h1, h2, h3⟩ := ih1 c' h
+          exact ⟨sd, h1, fun hv => h2 (List.mem_append.mpr (Or.inl hv)), h3⟩
+      · rw [List.pairwise_cons]
+        refine ⟨?_, ih2⟩
+        intro c' hc' e hec hec'
+        obtain ⟨sd, _, h2, h3⟩ := ih1 c' hc'
+        -- e ∈ c (class of seed) and e ∈ c' (class of sd): then sd ∈ class of seed ⊆ vis ++ c
+        have : EdgeConn top s seed sd := ((hclass e).mp hec).trans ((h3 e).mp hec').symm
+        exact h2 (List.mem_append.mpr (Or.inr ((hclass sd).mpr this)))
+      · intro hlen e he hev
+        by_cases hec : e ∈ c
+        · exact ⟨c, List.mem_cons_self, hec⟩
+        · have hev' : e ∉ vis ++ c := by
+            intro h; rcases List.mem_append.mp h with h | h
+            · exact hev h
+            · exact hec h
+          -- the number of unvisited edges strictly decreases: the seed was unvisited and is now visited
+          have hlt : (s.filter fun e => !(vis ++ c).contains e).length < (s.filter fun e => !vis.contains e).length := by
+            have hsub : ∀ x, x ∈ s.filter (fun e => !(vis ++ c).contains e) → x ∈ s.filter (fun e => !vis.contains e) := by
+              intro x hx
+              rw [List.mem_filter] at hx ⊢
+              refine ⟨hx.1, ?_⟩
+              have : x ∉ vis ++ c := by simpa using hx.2
+              have : x ∉ vis := fun h => this (List.mem_append.mpr (Or.inl h))
+              simpa using this
+            have hnd1 : (s.filter fun e => !(vis ++ c).contains e).Nodup := hs.filter _
+            have hseed_in : seed ∈ s.filter (fun e => !vis.contains e) := by
+              rw [List.mem_filter]; exact ⟨hseed_s, by simpa using hseed_v⟩
+            have hseed_out : seed ∉ s.filter (fun e => !(vis ++ c).contains e) := by
+              rw [List.mem_filter]
+              have : seed ∈ vis ++ c := List.mem_append.mpr (Or.inr ((hclass seed).mpr Relation.ReflTransGen.refl))
+              simp [this]
+            have hsp : (seed :: s.filter (fun e => !(vis ++ c).contains e)).Subperm (s.filter fun e => !vis.contains e) := by
+              apply List.subperm_of_subset (List.nodup_cons.mpr ⟨hseed_out, hnd1⟩)
+              intro x hx
+              rcases List.mem_cons.mp hx with rfl | h
+              · exact hseed_in
+              · exact hsub x h
+            have := hsp.length_le
+            simp only [List.length_cons] at this
+            omega
+          obtain ⟨c', hc', hec'⟩ := ih3 (by omega) e he hev'
+          exact ⟨c', List.mem_cons_of_mem _ hc', hec'⟩
+
+/-- **The connected components are exactly the connectivity classes of `s`**: every returned component is
+the full class of an edge of `s`, different components are disjoint, and every edge of `s` is in one. -/
+theorem componentLists_spec (top : List (TEdge α)) (s : List Nat) (hs : s.Nodup) :
+    (∀ c ∈ componentLists top s, ∃ seed ∈ s, ∀ f, f ∈ c ↔ EdgeConn top s seed f) ∧
+    List.Pairwise (fun c1 c2 : List Nat => ∀ e, e ∈ c1 → e ∉ c2) (componentLists top s) ∧
+    (∀ e ∈ s, ∃ c ∈ componentLists top s, e ∈ c) := by
+  obtain ⟨h1, h2, h3⟩ := compsLoop_spec top s hs s.length [] (connClosed_nil top s)
+  refine ⟨?_, h2, ?_⟩
+  · intro c hc
+    obtain ⟨sd, hsd, _, hcl⟩ := h1 c hc
+    exact ⟨sd, hsd, hcl⟩
+  · intro e he
+    exact h3 (by simpa using List.length_filter_le _ s) e he (by simp)
+
+/-- two edges of `s` lie in the same returned component iff they are connected inside `s` -/
+theorem same_component_iff (top : List (TEdge α)) (s : List Nat) (hs : s.Nodup) (e f : Nat) (he : e ∈ s) :
+    (∃ c ∈ componentLists top s, e ∈ c ∧ f ∈ c) ↔ EdgeConn top s e f := by
+  obtain ⟨h1, _, h3⟩ := componentLists_spec top s hs
+  constructor
+  · rintro ⟨c, hc, hec, hfc⟩
+    obtain ⟨sd, _, hcl⟩ := h1 c hc
+    exact ((hcl e).mp hec).symm.trans ((hcl f).mp hfc)
+  · intro hconn
+    obtain ⟨c, hc, hec⟩ := h3 e he
+    obtain ⟨sd, _, hcl⟩ := h1 c hc
+    exact ⟨c, hc, hec, (hcl f).mpr (((hcl e).mp hec).trans hconn)⟩
+
+end Momtrop
